@@ -37,6 +37,7 @@ TRIAGE = {
     "8995821a07": "equivalent: as above, for the v3 Environmental decodeOne",
     "10c59a60b5": "inside the properties: in Base.Decode an unsupported metric is reported at once and other token errors are deferred; acceptance is unchanged and the sentinel names a defect the vector has (latitude of C11, as `L1`)",
     "0edaac976d": "equivalent: v2 scores lie on the 0.1 grid, so `>= 3.99` and `>= 4.0` select the same scores",
+    "8380e403b5": "outside the properties: unused `IsDefined()` of the v2 Integrity Requirement (MODEL-DRIFT only)",
     "4a5eb510a3": "not a violation: capping AdjustedImpact at 9.99 instead of 10 changes 405 of the 46,656 adjusted base scores, and every one of them changes from the KF-1 value to the value of the exact equation (checked independently with rationals); C05 correctly reports fewer KNOWN-FINDING observations and no violation",
 }
 
